@@ -572,3 +572,4 @@ MANIFEST = {
 MANIFEST["text"] += ' Also: optional numeric hyper-parameters are never used as truth values (R6: an explicit 0 is a value); the bright-field crop window is inclusive of the outermost mask pixel, extent = max − min + 2·pad + 1 per axis (R7, algebraic normal form).'
 MANIFEST["text"] += " R10: _passively_rotate_grid is executed symbolically (tuple assignment = simultaneous) and its result compared, as rational normal forms, with a rotation: |k'|² = (cos²+sin²)|k|² and k' = R(−angle)k."
 MANIFEST["text"] += " R11: the hyper-parameter accessors modify only dicts of their own (CFG reaching definitions: no stored dict reaches an in-place update); R1 also evaluates extra SimpleBatcher options passed by reconstruct against the arms of SimpleBatcher.__iter__ they select (an arm that fills a batch with already delivered indices breaks the partition)."
+MANIFEST["text"] += ' R1 pass 2 accepts a slab view only when SimpleBatcher yields unit-stride slices; R2 accepts a direct store of the result only while the corrected_stack setter has no other side effect.'
